@@ -73,6 +73,11 @@ def generate(ctx):
                      for i, s in enumerate(h)]
             behs.append(dict(id="tlc-%s%d-%d" % (kind, n, len(behs)), minfree=mf, block=bl, naming="", cookie="",
                              tls=False, auth="", steps=steps, origin=kind))
+            # the same behaviour on ssl-passthrough hosts (tcp mode backends) and with dynamic-scaling=false
+            if len(behs) % 6 == 0:
+                behs.append(dict(behs[-1], id=behs[-1]["id"] + "-pt", passthru=True))
+            elif len(behs) % 6 == 3:
+                behs.append(dict(behs[-1], id=behs[-1]["id"] + "-st", static=True))
         if not hs:
             raise Undecided("TLC proposed no behaviour (plan %d)" % n)
     return behs
